@@ -204,9 +204,9 @@ def run(tier, chk):
     rnd = random.Random(chk.seed)
     negative_control(chk)
     quick = tier == 'quick'
-    items = gen_derived(3, [8, 32], ['+', '-', '&', '<<', '=='], ['plain', 'mut', 'fmap', 'imap'], chk)
+    items = gen_derived(3, [8, 32], ['+', '-', '&', '<<', '=='], ['plain', 'mut', 'fmap', 'imap', 'cmap'], chk)
     if not quick:
-        items += gen_derived(4, [8], ['+', '-', '*', '^', '|', '>>>', 'a>>'], ['plain', 'mut', 'fmap', 'imap'], chk, rich=False)
+        items += gen_derived(4, [8], ['+', '-', '*', '^', '|', '>>>', 'a>>'], ['plain', 'mut', 'fmap', 'imap', 'cmap'], chk, rich=False)
         items += gen_derived(3, [1, 8, 16, 32, 64], ['+', '^', '-'], ['plain', 'mut'], chk)
     else:
         items = [x for x in items if x['kind'] == 'plain' or rnd.random() < 0.5]
